@@ -106,6 +106,7 @@ PluginRet BasePlugin__run(BasePlugin p, OomdContext c)
   if (g_action_runs == 0) { g_chain_first = (uint64_t)(p - ACTION_BASE); g_chain_ctx = g_ctx_action; }
   __CPROVER_assert(ACTX_EQ(g_ctx_action, g_expect_ctx), "every action sees the action context its chain was fired with"); /*@C02,C06*/
   __CPROVER_assert(g_ctx_invoking.has && g_ctx_invoking.val == g_self, "the invoking ruleset is available to every action of the chain (post_action_delay override)"); /*@C05*/
+  __CPROVER_assert(ghost_log_enabled == ((g_self->silenced_logs_ & LogSources__PLUGINS) ? 0 : 1), "an action's own log lines are silenced exactly when the ruleset's silence-logs lists plugins"); /*@C02,C20*/
   g_action_runs = g_action_runs + 1;
   int r = nondet_int();
   __CPROVER_assume(r == PluginRet__CONTINUE || r == PluginRet__STOP || r == PluginRet__ASYNC_PAUSED);
@@ -145,7 +146,7 @@ uint32_t Ruleset__run_action_chain(Ruleset *self, vecit_uptr_BasePlugin action_c
   __CPROVER_requires(__CPROVER_is_fresh(self, sizeof(*self)) && self == g_self && RS_WF(self) && TP_VALID(g_last_now))
   __CPROVER_requires(action_chain_start.n == self->action_group_.n &&
                      action_chain_end.i == self->action_group_.n && action_chain_start.i <= action_chain_end.i)
-  __CPROVER_requires(!self->plugin_overrode_post_action_delay_ && ghost_exc == 0 && g_action_runs == 0 && g_now_calls <= 2)
+  __CPROVER_requires(!self->plugin_overrode_post_action_delay_ && ghost_exc == 0 && g_action_runs == 0 && g_now_calls <= 2 && ghost_log_enabled == 1)
   __CPROVER_requires(!self->active_action_chain_state_.has)  /* a suspended chain is consumed before it is resumed */ /*@C06*/
   __CPROVER_requires(g_ctx_invoking.has && g_ctx_invoking.val == self) /* the chain runs with the invoking ruleset set */ /*@C05*/
   __CPROVER_assigns(self->pause_actions_until_, self->plugin_overrode_post_action_delay_, self->active_action_chain_state_,
@@ -175,6 +176,7 @@ uint32_t Ruleset__run_action_chain(Ruleset *self, vecit_uptr_BasePlugin action_c
                             self->pause_actions_until_.nsec == g_last_now.nsec))
       : TP_EQ(self->pause_actions_until_, __CPROVER_old(self->pause_actions_until_)))
   __CPROVER_ensures(!self->plugin_overrode_post_action_delay_) /*@C05,C02*/
+  __CPROVER_ensures(ghost_log_enabled == 1)      /* silencing never outlives the action it was switched on for */ /*@C02,C20*/
   __CPROVER_ensures(TP_VALID(self->pause_actions_until_) || self->pause_actions_until_.sec >= (1L << 40))
   __CPROVER_ensures(ghost_exc == 0);
 
@@ -193,7 +195,7 @@ uint32_t Ruleset__run_action_chain(Ruleset *self, vecit_uptr_BasePlugin action_c
   __CPROVER_loop_invariant(g_now_calls >= __CPROVER_loop_entry(g_now_calls) && g_now_calls <= 2 && \
      (__CPROVER_loop_entry(g_now_calls) >= 1 ? TP_EQ(g_now_hist0, __CPROVER_loop_entry(g_now_hist0)) : 1) && \
      (__CPROVER_loop_entry(g_now_calls) >= 2 ? TP_EQ(g_now_hist1, __CPROVER_loop_entry(g_now_hist1)) : 1)) \
-  __CPROVER_loop_invariant(ACTX_EQ(g_ctx_action, g_expect_ctx) && g_ctx_invoking.has && g_ctx_invoking.val == self) \
+  __CPROVER_loop_invariant(ACTX_EQ(g_ctx_action, g_expect_ctx) && g_ctx_invoking.has && g_ctx_invoking.val == self && ghost_log_enabled == 1) \
   __CPROVER_decreases(action_chain_end.i - action_chain_start.i)
 
 /* runOnceImpl: one tick of one ruleset (instance) */
@@ -209,7 +211,7 @@ uint32_t Ruleset__run_action_chain(Ruleset *self, vecit_uptr_BasePlugin action_c
 uint32_t Ruleset__runOnceImpl(Ruleset *self, OomdContext context)
   __CPROVER_requires(__CPROVER_is_fresh(self, sizeof(*self)) && self == g_self && RS_WF(self) && RS_STATE_WF(self))
   __CPROVER_requires(TP_VALID(g_last_now) && !self->plugin_overrode_post_action_delay_ && ghost_exc == 0)
-  __CPROVER_requires(g_dg_next == 0 && g_first_fired == -1 && g_now_calls == 0 && g_uuid_calls == 0 && g_action_runs == 0)
+  __CPROVER_requires(g_dg_next == 0 && g_first_fired == -1 && g_now_calls == 0 && g_uuid_calls == 0 && g_action_runs == 0 && ghost_log_enabled == 1)
   __CPROVER_assigns(self->pause_actions_until_, self->plugin_overrode_post_action_delay_, self->active_action_chain_state_,
                     g_ctx_action, g_ctx_invoking, g_ctx_rscg, g_dg_next, g_first_fired, g_uuid_calls, g_last_uuid,
                     g_last_now, g_now_calls, g_now_hist0, g_now_hist1, g_action_runs, g_last_ret,
@@ -244,7 +246,7 @@ uint32_t Ruleset__runOnceImpl(Ruleset *self, OomdContext context)
   __CPROVER_ensures((self->active_action_chain_state_.has && g_action_runs > 0) ? ACTX_EQ(ACTX_OF(self->active_action_chain_state_.val.action_context), g_chain_ctx) : 1)
   /* the context is left clean on every path */ /*@C02,C05,C06*/
   __CPROVER_ensures(ACTX_CLEAR(g_ctx_action) && !g_ctx_invoking.has && !g_ctx_rscg.has)
-  __CPROVER_ensures(RS_STATE_WF(self) && !self->plugin_overrode_post_action_delay_)
+  __CPROVER_ensures(RS_STATE_WF(self) && !self->plugin_overrode_post_action_delay_ && ghost_log_enabled == 1)
   __CPROVER_ensures(ghost_exc == 0);
 
 #define LOOPC_Ruleset__runOnceImpl_1 \
